@@ -102,6 +102,7 @@ inductive Op
   | serialize (r : String)
   | clone_from (r rsrc : String)
   | from_str (n : Nat)
+  | extend_ref (pre : Nat) (it : Vec.IterScript)
   | deserialize (rnew : String) (hint : Option Nat) (sc : List SeqItem)
   | deserialize_in_place (r : String) (hint : Option Nat) (sc : List SeqItem)
   deriving Repr, Inhabited
@@ -438,6 +439,22 @@ def step (w : World) : Op → World × Out
         VM.forN n (fun i => VM.wr p i ⟨0, 97⟩)
         VM.lift Xb (Gen.set_len Xb.env n)
       else pure ()
+      let l ← VM.lift Xb (Gen.len Xb.env)
+      dropVec Xb
+      pure l)
+    (match res with
+     | .ok l => (w', .fromStr l)
+     | .error p => (w', .stopped p))
+  | .extend_ref pre it =>
+    if pre > 4096 || it.length > 4096 then (w, .badOp) else
+    -- `Extend<&'a T>` for a Copy element type (u32): with_capacity(pre), `pre` pushes, then one push per item the
+    -- iterator yields before its first `None` (its size_hint is never consulted); checked and dropped inside
+    let Xb : Ctx := { X with c := ⟨4, 4, false⟩ }
+    let vals : List Int := (it.takeWhile Option.isSome).filterMap id
+    let (res, _, w') := runOn w {} (do
+      VM.lift Xb (Gen.with_capacity Xb.env pre)
+      VM.forN pre (fun i => push Xb ⟨0, i⟩)
+      VM.forN vals.length (fun i => push Xb ⟨0, vals.getD i 0⟩)
       let l ← VM.lift Xb (Gen.len Xb.env)
       dropVec Xb
       pure l)
